@@ -1158,8 +1158,8 @@ impl VM {
             PacketPropType::Payload => {
                 let payload = tcp.rawdata.borrow().clone();
                 let mut elements = Vec::new();
-                // start at offset 'offset' to skip the tcp header
-                for byte in payload.iter().skip(tcp.offset) {
+                // skip the tcp header including its options
+                for byte in payload.iter().skip(tcp.payload_offset()) {
                     elements.push(Rc::new(Object::Byte(*byte)));
                 }
                 let arr = Array::new(elements);
